@@ -165,6 +165,22 @@ func linearGen(r *rand.Rand, n int, tier string, emit func(Case)) {
 					}
 				}
 			}
+			if r.Intn(4) == 0 {
+				// exact ties: x * 10^dp is an odd multiple of one half, exactly (an odd integer over a power of two for
+				// dp >= 0, an odd multiple of 5 * 10^(-dp-1) for dp < 0) - where rounding up, down, to even and away from
+				// zero all differ, and oddness decides which was meant
+				dp := r.Intn(7) - 3
+				odd := float64(2*r.Intn(40) + 1)
+				x = odd * 5 * math.Pow(10, float64(-dp-1))
+				if dp >= 0 {
+					x = math.Ldexp(odd, -(dp + 1))
+				}
+				if r.Intn(2) == 0 {
+					x = -x
+				}
+				emit(Case{"kind": "snap", "x": bitsHex(x), "dp": dp})
+				continue
+			}
 			emit(Case{"kind": "snap", "x": bitsHex(x), "dp": r.Intn(641) - 320})
 		case 6:
 			if r.Intn(3) == 0 {
